@@ -108,18 +108,6 @@ Proof.
   split; [vm_compute; reflexivity |]. split; vm_compute; reflexivity.
 Qed.
 
-(* epoch-0 ApplicationData is handed to the application before anything is authenticated (the
-   discard rule only starts once keys exist) *)
-Lemma plain_appdata_before_auth_refuted :
-  exists (g : cfg tm) (d : tm) (i : input tm),
-    g_role g = Client /\ g_expected g = Some (fingerprint sym server_cert) /\
-    let '(c, o) := step sym (fst (start sym g)) i in
-    In (OUp d) o /\ peer_cert c = None /\ skeys c = None.
-Proof.
-  exists (client_cfg 1), (junk 9), (InDatagram [WRec (mkRec 0 5 None (KAppData (junk 9)))]).
-  vm_compute. repeat split; auto.
-Qed.
-
 (* the client theorem is not vacuous: the honest run reaches Connected in the client role with an
    expected fingerprint *)
 Lemma client_auth_nonvacuous :
